@@ -383,35 +383,36 @@ func c02R2(c *Check, R *Roles) {
 	c.Obl(nValid >= 1, "C02.R2", "signature/count", P.Pos(fn.Pos()), fmt.Sprintf("%d `valid` returns", nValid), "validator has no `valid` return")
 
 	// ---- audience
-	var audCmp []ssa.Value
-	for _, b := range fn.Blocks {
-		for _, ins := range b.Instrs {
-			bo, ok := ins.(*ssa.BinOp)
-			if !ok || bo.Op != token.EQL || !isString(bo.X.Type()) {
-				continue
-			}
-			isCID := func(v ssa.Value) bool { return isGetterOn(v, idOIDCConfig+".GetClientId", isHandlerConfig) }
-			fromAud := func(v ssa.Value) bool {
-				for d := range dataDeps(v) {
-					if ac, isC := d.(*ssa.Call); isC && ac.Common().IsInvoke() && ac.Common().Method.Name() == "Audience" {
-						return true
-					}
-				}
-				return false
-			}
-			if (isCID(bo.X) && fromAud(bo.Y)) || (isCID(bo.Y) && fromAud(bo.X)) {
-				audCmp = append(audCmp, bo)
-			}
-		}
-	}
+	audCmp := audienceComparisons(P, R, fn)
 	if c.Obl(len(audCmp) >= 1, "C02.R2", "audience/comparison", P.Pos(fn.Pos()), "an audience element is compared (==) with the configured client id",
 		"no string equality between an element of the token's audience and the handler's configured client id (Contains/prefix/other comparisons do not count)") {
 		atoms := atomEnv{}
+		okHelpers := true
 		for _, a := range audCmp {
-			atoms[a] = false
+			bo := a.(*ssa.BinOp)
+			g := bo.Parent()
+			if g == fn {
+				atoms[a] = false
+				continue
+			}
+			// comparison inside a helper: the helper cannot answer true when the comparison never holds, and the
+			// validator then sees the helper's result as false
+			if existsPath(g, atomEnv{a: false}, func(i ssa.Instruction) bool {
+				r, ok := i.(*ssa.Return)
+				if !ok || len(r.Results) != 1 {
+					return false
+				}
+				b, isC := constBool(r.Results[0])
+				return !isC || b
+			}, nil) != nil {
+				okHelpers = false
+			}
+			for _, ci := range callsToFn(fn, g) {
+				atoms[ci.(*ssa.Call)] = false
+			}
 		}
 		hit := existsPath(fn, atoms, isValidReturn, nil)
-		c.Obl(hit == nil, "C02.R2", "audience/no-match-never-valid", P.Pos(fn.Pos()), "with no audience element equal to the client id no `valid` return is reachable",
+		c.Obl(hit == nil && okHelpers, "C02.R2", "audience/no-match-never-valid", P.Pos(fn.Pos()), "with no audience element equal to the client id no `valid` return is reachable",
 			"a `valid` return is reachable although no audience element equals the client id ("+posOf(P, hit)+")")
 	}
 
@@ -580,34 +581,20 @@ func c02R4(c *Check, R *Roles) {
 		}
 	}
 	c.Obl(passes, "C02.R4", "ok-writer/passes-tokens", P.Pos(encCall.Pos()), "the OK writer encodes the token object it was given", "the OK writer does not pass its token argument to the header encoder")
-	// every HeaderValue built in the OK writer has key/value from the range over the encoder's map
+	// every header the OK writer adds has key/value from the range over the encoder's map
 	nHV := 0
-	for _, b := range R.AllowFn.Blocks {
-		for _, ins := range b.Instrs {
-			al, ok := ins.(*ssa.Alloc)
-			if !ok || typeID(al.Type()) != pkgEnvoyCore+".HeaderValue" {
-				continue
-			}
-			nHV++
-			okKV := true
-			for name, vals := range structFieldStores(al) {
-				if name != "Key" && name != "Value" {
-					continue
-				}
-				for _, v := range vals {
-					fromEnc := false
-					for d := range dataDeps(v) {
-						if d == encCall {
-							fromEnc = true
-						}
-					}
-					if !fromEnc {
-						okKV = false
-					}
-				}
-			}
-			c.Obl(okKV, "C02.R4", fmt.Sprintf("ok-writer/header#%d", nHV), P.Pos(instrPos(al)), "header key and value come from the encoder's map", "the OK writer adds a header that does not come from the token encoder")
+	for _, hs := range headerSites(P, R) {
+		if hs.Fn != R.AllowFn {
+			continue
 		}
+		nHV++
+		okKV := hs.KeyVal != nil && hs.Val != nil
+		for _, v := range []ssa.Value{hs.KeyVal, hs.Val} {
+			if v == nil || !dataDeps(v)[encCall] {
+				okKV = false
+			}
+		}
+		c.Obl(okKV, "C02.R4", fmt.Sprintf("ok-writer/header#%d", nHV), P.Pos(instrPos(hs.At)), "header key and value come from the encoder's map", "the OK writer adds a header that does not come from the token encoder")
 	}
 	c.Obl(nHV == 1, "C02.R4", "ok-writer/header-count", P.Pos(R.AllowFn.Pos()), "exactly one header construction site (inside the loop over the encoder's map)",
 		fmt.Sprintf("%d header construction sites in the OK writer (expected exactly the loop over the encoder's map)", nHV))
@@ -719,4 +706,92 @@ func c02R4(c *Check, R *Roles) {
 		c.Obl(okShape, "C02.R4", "encoder/value-helper/"+fnKey(callee), P.Pos(callee.Pos()), "value helper returns [preamble + \" \" +] value", "the header value helper returns something other than [preamble + \" \" +] value")
 		break
 	}
+}
+
+
+// audienceComparisons: string equalities between an element of the token's audience and the handler's
+// configured client id, in fn or in own helpers it calls (parameters followed to the call sites in fn).
+func audienceComparisons(P *Program, R *Roles, fn *ssa.Function) []ssa.Value {
+	var out []ssa.Value
+	from := func(v ssa.Value, pred func(*ssa.Call) bool, g *ssa.Function) bool {
+		check := func(x ssa.Value) bool {
+			for d := range dataDeps(x) {
+				if c, ok := d.(*ssa.Call); ok && pred(c) {
+					return true
+				}
+			}
+			if c, ok := x.(*ssa.Call); ok && pred(c) {
+				return true
+			}
+			return false
+		}
+		if check(v) {
+			return true
+		}
+		// through a parameter of the helper
+		for d := range dataDeps(v) {
+			p, isP := d.(*ssa.Parameter)
+			if !isP || p.Parent() != g || g == fn {
+				continue
+			}
+			idx := -1
+			for i, q := range g.Params {
+				if q == p {
+					idx = i
+				}
+			}
+			okAll, n := true, 0
+			for _, cs := range P.CallersOf(g) {
+				if idx < 0 || idx >= len(cs.Common().Args) {
+					continue
+				}
+				n++
+				if !check(cs.Common().Args[idx]) {
+					okAll = false
+				}
+			}
+			if okAll && n > 0 {
+				return true
+			}
+		}
+		if p, isP := v.(*ssa.Parameter); isP && p.Parent() == g && g != fn {
+			idx := -1
+			for i, q := range g.Params {
+				if q == p {
+					idx = i
+				}
+			}
+			okAll, n := true, 0
+			for _, cs := range P.CallersOf(g) {
+				if idx < 0 || idx >= len(cs.Common().Args) {
+					continue
+				}
+				n++
+				if !check(cs.Common().Args[idx]) {
+					okAll = false
+				}
+			}
+			return okAll && n > 0
+		}
+		return false
+	}
+	isAud := func(c *ssa.Call) bool { return c.Common().IsInvoke() && c.Common().Method.Name() == "Audience" }
+	isCID := func(c *ssa.Call) bool { return isCallTo(c, idOIDCConfig+".GetClientId") && isHandlerConfig(c.Common().Args[0]) }
+	for _, g := range deepFuncs(fn, 2) {
+		if g != fn && !R.InHandler(g) {
+			continue
+		}
+		for _, b := range g.Blocks {
+			for _, ins := range b.Instrs {
+				bo, ok := ins.(*ssa.BinOp)
+				if !ok || bo.Op != token.EQL || !isString(bo.X.Type()) {
+					continue
+				}
+				if (from(bo.X, isAud, g) && from(bo.Y, isCID, g)) || (from(bo.Y, isAud, g) && from(bo.X, isCID, g)) {
+					out = append(out, bo)
+				}
+			}
+		}
+	}
+	return out
 }
